@@ -98,10 +98,16 @@ fn reply_is_end(r: &Reply) -> bool {
 pub fn gen_plan(cx: &mut Ctx, o: &PlanOpts) -> Plan {
     let k = 1 + cx.ch.weighted(&[3, 3, 2, 1]).min(o.max_reqs - 1);
     let max_conns = cx.ch.one_of(&[1usize, 2, 10, 100]);
+    // buffer size first: the 24-byte minimum needs pairs of at most 11 bytes
+    let bufsize = if o.small_buf_bias {
+        match cx.ch.weighted(&[4, 3, 2, 1]) { 0 => 24, 1 => cx.ch.range(24, 120), 2 => cx.ch.one_of(&[4096usize, 8192]), _ => cx.ch.range(120, 70000) }
+    } else {
+        match cx.ch.weighted(&[2, 3, 3, 1]) { 0 => 24, 1 => cx.ch.range(24, 200), 2 => cx.ch.one_of(&[4096usize, 8192]), _ => cx.ch.range(200, 70000) }
+    };
     let mut all: Vec<Rec> = Vec::new();
     let mut bounds = Vec::new();
     let mut metas = Vec::new();
-    let pair_cap = 40;
+    let pair_cap = effective(bufsize).saturating_sub(13).min(40);
     for i in 0..k {
         let id = gen_id(cx);
         let role = gen_role(cx);
@@ -157,6 +163,7 @@ pub fn gen_plan(cx: &mut Ctx, o: &PlanOpts) -> Plan {
             if cx.ch.chance(1, 3) {
                 let fid = gen_other_id(cx, id, true);
                 srecs.insert(at, Rec::new(ABORT, fid, Vec::new(), 0));
+                cx.probe("foreign_abort_inserted");
             }
             has_abort = true;
         }
@@ -246,12 +253,6 @@ pub fn gen_plan(cx: &mut Ctx, o: &PlanOpts) -> Plan {
             }
         }
     }
-    let bufsize = if o.small_buf_bias {
-        match cx.ch.weighted(&[4, 3, 2, 1]) { 0 => 24, 1 => cx.ch.range(24, 120), 2 => cx.ch.one_of(&[4096usize, 8192]), _ => cx.ch.range(120, 70000) }
-    } else {
-        match cx.ch.weighted(&[2, 3, 3, 1]) { 0 => 24, 1 => cx.ch.range(24, 200), 2 => cx.ch.one_of(&[4096usize, 8192]), _ => cx.ch.range(200, 70000) }
-    };
-    let bufsize = bufsize.max(pair_cap + 13);
     let desc = {
         let recs: Vec<String> = all.iter().take(36).map(Rec::short).collect();
         format!("k={k} bufsize={bufsize} max_conns={max_conns} closed_loop={} segs={:?} records=[{}]", o.closed_loop,
@@ -1001,10 +1002,18 @@ pub fn check_replies(out: &ConnOutcome, plan: &Plan, read_upto: usize, exact: bo
     Ok(())
 }
 
+pub const F_TRANSPORT: &[&str] = &["short_read", "read_pending_nodata", "read_pending_withdata", "short_write", "write_pending"];
+pub const F_FLUSH: &[&str] = &["flush_pending"];
+pub const F_SPURIOUS: &[&str] = &["spurious_poll"];
+pub const F_INJECT: &[&str] = &["read_error", "eof_injected", "write_error", "zero_write"];
+pub const P_BASE: &[&str] = &["read_filled_buffer", "write_cut_in_header", "write_cut_at_seam", "write_cut_in_padding", "requests_2plus", "buffer_24"];
+pub const P_C07: &[&str] = &["keep_conn_reuse", "no_keep_conn_close", "handler_left_input_unread"];
+#[allow(dead_code)]
 pub const D2_FAULTS: &[&str] = &[
     "short_read", "read_pending_nodata", "read_pending_withdata", "short_write", "write_pending", "spurious_poll",
     "read_error", "eof_injected", "write_error", "zero_write", "shutdown_requested",
 ];
+#[allow(dead_code)]
 pub const D2_PROBES: &[&str] = &[
     "read_with_empty_buffer", "read_filled_buffer", "write_cut_in_header", "write_cut_at_seam", "write_cut_in_padding",
     "handler_swallowed_error", "reader_subtask", "output_stream_refused", "async_rejected_selection", "early_advance_async",
@@ -1057,7 +1066,8 @@ fn check_termination(out: &ConnOutcome, plan: &Plan, oracle_prefix: &str) -> VRe
 
 /// C07: fault-free population, open-loop compliant client.
 pub fn c07(cx: &mut Ctx) -> VResult {
-    cx.declare(D2_FAULTS, D2_PROBES);
+    cx.declare(F_TRANSPORT, P_BASE);
+    cx.declare(F_SPURIOUS, P_C07);
     let o = PlanOpts { max_reqs: 4, noise: cx.ch.pick(4), closed_loop: false, abort: false, small_buf_bias: cx.ch.chance(1, 2), force_keep: false, either_noise: false };
     let plan = gen_plan(cx, &o);
     note_plan(cx, &plan);
@@ -1091,12 +1101,12 @@ fn handler_violations(out: &ConnOutcome) -> VResult {
 
 pub const C08_PROBES: &[&str] = &[
     "query_before_first_request", "query_between_requests", "query_during_params", "query_mid_stream", "query_after_stream_end",
-    "peer_withheld", "suspension_points_checked",
+    "suspension_points_checked",
 ];
 
 /// C08: closed-loop peer, strict executor (no spurious polls).
 pub fn c08(cx: &mut Ctx) -> VResult {
-    cx.declare(D2_FAULTS, D2_PROBES);
+    cx.declare(F_TRANSPORT, P_BASE);
     cx.declare(&["peer_withhold"], C08_PROBES);
     let o = PlanOpts { max_reqs: 3, noise: 2 + cx.ch.pick(4), closed_loop: true, abort: false, small_buf_bias: cx.ch.chance(1, 2), force_keep: false, either_noise: false };
     let plan = gen_plan(cx, &o);
@@ -1156,7 +1166,8 @@ pub const C09_PROBES: &[&str] = &["writeable_true_sampled", "writeable_false_sam
 
 /// C09: async read interfaces and output gating.
 pub fn c09(cx: &mut Ctx) -> VResult {
-    cx.declare(D2_FAULTS, D2_PROBES);
+    cx.declare(F_TRANSPORT, P_BASE);
+    cx.declare(F_SPURIOUS, &["output_stream_refused", "async_rejected_selection", "early_advance_async"]);
     cx.declare(&[], C09_PROBES);
     let o = PlanOpts { max_reqs: 2, noise: cx.ch.pick(5), closed_loop: false, abort: false, small_buf_bias: cx.ch.chance(1, 2), force_keep: false, either_noise: false };
     let plan = gen_plan(cx, &o);
@@ -1198,7 +1209,9 @@ pub const C10_PROBES: &[&str] = &["writers_2plus", "write_65535_capped", "zero_l
 
 /// C10: concurrent writers + reply flushing: complete, non-interleaved records.
 pub fn c10(cx: &mut Ctx) -> VResult {
-    cx.declare(D2_FAULTS, D2_PROBES);
+    cx.declare(F_TRANSPORT, P_BASE);
+    cx.declare(F_SPURIOUS, &["reader_subtask"]);
+    cx.declare(F_FLUSH, &[]);
     cx.declare(&[], C10_PROBES);
     let o = PlanOpts { max_reqs: 2, noise: 1 + cx.ch.pick(5), closed_loop: false, abort: false, small_buf_bias: cx.ch.chance(1, 2), force_keep: false, either_noise: false };
     let plan = gen_plan(cx, &o);
@@ -1237,11 +1250,12 @@ pub fn c10(cx: &mut Ctx) -> VResult {
     Ok(())
 }
 
-pub const C11_PROBES: &[&str] = &["abort_seen_by_handler", "abort_swallowed_own_status", "abort_not_reached", "abort_during_params_async", "request_after_abort_served", "foreign_abort_ignored"];
+pub const C11_PROBES: &[&str] = &["abort_seen_by_handler", "abort_swallowed_own_status", "abort_not_reached", "abort_during_params_async", "request_after_abort_served", "foreign_abort_inserted"];
 
 /// C11 (async part): abort in the stream phase.
 pub fn c11(cx: &mut Ctx) -> VResult {
-    cx.declare(D2_FAULTS, D2_PROBES);
+    cx.declare(F_TRANSPORT, P_BASE);
+    cx.declare(F_SPURIOUS, &["handler_swallowed_error"]);
     cx.declare(&[], C11_PROBES);
     let o = PlanOpts { max_reqs: 3, noise: cx.ch.pick(3), closed_loop: false, abort: true, small_buf_bias: cx.ch.chance(1, 2), force_keep: false, either_noise: false };
     let plan = gen_plan(cx, &o);
@@ -1282,7 +1296,8 @@ pub const C12_PROBES: &[&str] = &["fault_points_eof", "fault_points_read_err", "
 /// read call, a write error and a zero-length write at every write call, each in a fresh run that
 /// replays the script's choice list.
 pub fn c12(cx: &mut Ctx) -> VResult {
-    cx.declare(D2_FAULTS, D2_PROBES);
+    cx.declare(F_TRANSPORT, P_BASE);
+    cx.declare(F_INJECT, &[]);
     cx.declare(&[], C12_PROBES);
     let o = PlanOpts { max_reqs: 2, noise: cx.ch.pick(3), closed_loop: false, abort: false, small_buf_bias: cx.ch.chance(1, 2), force_keep: false, either_noise: false };
     let plan = gen_plan(cx, &o);
@@ -1294,7 +1309,8 @@ pub fn c12(cx: &mut Ctx) -> VResult {
     // fault-free reference run, recording the choice list of the run itself
     let start = cx.ch.log.len();
     let inner = take_cx(cx);
-    let copts = |rf, wf| ConnOpts { mode: HandlerMode::Seq, rfault: rf, wfault: wf, shutdown: None, strict_no_spurious: true };
+    let hmode = if cx.ch.chance(1, 4) { HandlerMode::Readers } else { HandlerMode::Seq };
+    let copts = |rf, wf| ConnOpts { mode: hmode, rfault: rf, wfault: wf, shutdown: None, strict_no_spurious: true };
     let mut out = run_conn_with(inner, &plan, knobs, &copts(RFault::None, WFault::None), |w| w.force_propagate = true);
     give_back(cx, &mut out);
     handler_violations(&out)?;
@@ -1375,7 +1391,8 @@ pub const C14_PROBES: &[&str] = &["reply_cut_by_shutdown", "idle_at_shutdown", "
 
 /// C14 (connection side): graceful shutdown at an arbitrary scheduling step.
 pub fn c14_conn(cx: &mut Ctx) -> VResult {
-    cx.declare(D2_FAULTS, D2_PROBES);
+    cx.declare(F_TRANSPORT, P_BASE);
+    cx.declare(&["spurious_poll", "shutdown_requested"], &["shutdown_during_handler", "shutdown_before_first_read", "shutdown_between_or_preamble"]);
     cx.declare(&[], C14_PROBES);
     let o = PlanOpts { max_reqs: 3, noise: cx.ch.pick(3), closed_loop: false, abort: false, small_buf_bias: cx.ch.chance(1, 3), force_keep: true, either_noise: true };
     let plan = gen_plan(cx, &o);
